@@ -150,7 +150,7 @@ func c14ExecRun(t *rapid.T) {
 	}
 	var progs []*Program
 	for i := 0; i < nprog; i++ {
-		progs = append(progs, genProgram(t, genOpts{probes: true, mapRegions: true, pureMapBody: true, sideEffects: true, failing: true, failPct: 10, probePct: 15, maxPieces: 4, maxDepth: 2, litModePct: 24, brokenPct: 10}))
+		progs = append(progs, genProgram(t, genOpts{tolerant: true, toleratedOnly: true, lateLet: true, probes: true, mapRegions: true, pureMapBody: true, sideEffects: true, failing: true, failPct: 10, probePct: 15, maxPieces: 4, maxDepth: 2, litModePct: 24, brokenPct: 10}))
 	}
 	cacheOn := scenario == 3 || rapid.Bool().Draw(t, "cache")
 	warm := uni(t, "warm", 3) // 0 cold, 1 some, 2 all
